@@ -11,6 +11,14 @@ func (l *lcg) next(n int) int {
 	return int((l.s >> 33) % uint64(n))
 }
 
+func frameJobsFor(tier string, spec int) []*Job {
+	jobs := frameJobs(tier)
+	for _, j := range jobs {
+		j.Params["spec"] = spec
+	}
+	return jobs
+}
+
 func frameJobs(tier string) []*Job {
 	var jobs []*Job
 	seen := map[string]bool{}
@@ -21,7 +29,7 @@ func frameJobs(tier string) []*Job {
 		}
 		seen[id] = true
 		j := mkJob(id, "H_frame", "", "verif,noasm", p)
-		j.Unwind = 3000
+		j.Unwind = 3000000
 		jobs = append(jobs, j)
 	}
 	mk := func(n, period, bs, bc, cc, sizeopt, level, legacy, deliv, k, rb, rsrc int) map[string]int {
@@ -84,6 +92,15 @@ func frameJobs(tier string) []*Job {
 			}
 		}
 	}
+	// block-boundary inputs: 64 KiB blocks, concrete compressible filler with two symbolic tail bytes
+	for bi, n := range []int{65535, 65536, 65537, 131073} {
+		for _, deliv := range []int{0, 1, 4} {
+			if !thorough && (bi+deliv)%2 == 1 {
+				continue
+			}
+			add(mk(n, -1200, 4, 1, 1, 0, 0, 0, deliv, []int{1, 65535, 65536, 65537}[(bi+deliv)%4], []int{0, 2, 4, 3}[(bi+deliv)%4], 0))
+		}
+	}
 	// growing tiny inputs, all bytes symbolic
 	N := 8
 	if thorough {
@@ -101,13 +118,14 @@ func frameBounds(tier string) []string {
 		"option matrix: 4 block sizes x block checksum x content checksum x content size (symbolic 64-bit value) x level {Fast, Level1, Level9} x legacy, each on a tiny input (0..6 symbolic bytes) with a rotating delivery / read-back shape",
 		"every delivery shape {one Write; Write|Write; Write|Flush|Write; Flush,Write,Flush,Flush; ReadFrom with 4 source fragmentation modes; byte-by-byte} x read-back {Read >= block size; Read 3-byte buffers; WriteTo; mixed 1/2/7/block+1; block-1} x source fragmentation {full; 1 byte; data+EOF; zero-length reads}",
 		"compressible inputs of 40 and 70 bytes (thorough: 24..300) built from a symbolic period of 1..3 bytes: real compressed blocks, with splits",
-		"all input bytes symbolic; concurrency = 1; amd64 portable decoder",
+		"block-boundary inputs of 65535 / 65536 / 65537 / 131073 bytes with 64 KiB blocks (concrete compressible filler, last two bytes symbolic), split at 1 / 65535 / 65536 / 65537",
+		"all input bytes symbolic otherwise; concurrency = 1; amd64 portable decoder",
 	}
 }
 
 var frameOutside = []string{
 	"concurrency != 1 (Writer and Reader goroutine pipelines are not encoded)",
-	"inputs of a block size or more (64 KiB..4 MiB block boundaries), multi-block frames other than via Flush",
+	"256 KiB..4 MiB block boundaries; arbitrary content in block-size inputs (only two tail bytes are symbolic)",
 	"levels 2..8",
 }
 
@@ -120,11 +138,11 @@ var frameAssumptions = []string{
 
 func init() {
 	checkDefs["C02"] = &CheckDef{
-		Property: "C02", Jobs: frameJobs, Bounds: frameBounds, Outside: frameOutside, Assumptions: frameAssumptions,
+		Property: "C02", Jobs: func(t string) []*Job { return frameJobsFor(t, 0) }, Bounds: frameBounds, Outside: frameOutside, Assumptions: frameAssumptions,
 		Filter: func(id string) bool { return hasPrefix(id, "rt-") || hasPrefix(id, "no-panic") || hasPrefix(id, "unwind") },
 	}
 	checkDefs["C09"] = &CheckDef{
-		Property: "C09", Jobs: frameJobs, Bounds: frameBounds, Outside: frameOutside, Assumptions: frameAssumptions,
+		Property: "C09", Jobs: func(t string) []*Job { return frameJobsFor(t, 1) }, Bounds: frameBounds, Outside: frameOutside, Assumptions: frameAssumptions,
 		Filter: func(id string) bool { return hasPrefix(id, "spec-") || id == "rt-writer-no-error" || id == "rt-options-accepted" },
 	}
 	_ = fmt.Sprint
